@@ -1,7 +1,126 @@
 import Mutagen.Driver.Util
+import Mutagen.Model.Config
 namespace Mutagen.Driver.C37
+open Mutagen.Driver Mutagen.Model.Config
 
-/-- Model-side handler for one line of the C37 correspondence stream. -/
-def handle (_line : String) : String := "unimplemented"
+/-!
+Lines:
+* `cfg <c> <cα> <cβ>` / `cfgl <c> <cα> <cβ>` — three configurations, each
+  `sm/ha/mec/msfs/pm/scm/stm/slm/wm/wpi/is/di/ig/vcs/perm/fm/dm/owner/group/ca`
+  (numbers decimal; `di`, `ig` lists of hex strings joined by `,` or `-`;
+  owner/group hex).
+  Output: `c=<v> a=<v> b=<v> ma=<v> mb=<v> sess=<v> spec=<v> | <merge c cα> | <merge c cβ>` and, for `cfgl`,
+  ` | <perm>,<fm>,<dm> <perm>,<fm>,<dm>` (or ` | -` when the session is rejected)
+  where `<v>` is `ok` or the error class of `EnsureValid` (session-wide,
+  endpoint-specific ×2, merged ×2 validated as session-wide i.e. what the remote
+  endpoint does), `sess` the session-level verdict (`ok` or `<stage>:<class>`),
+  and the last field the effective permissions/file/directory modes of the
+  local endpoint for each merged configuration.
+* `text <table> <value>` — `MarshalText` of the value, `UnmarshalText` of that
+  text, `Supported()`: `<hex text> <value|err> <0|1>`.
+* `parse <table> <hex text>` — `UnmarshalText`: `<value|err>`.
+-/
+
+def hexStr (s : Str) : String := encHex (charsToBytes s)
+def unhexStr (s : String) : Option Str := (decHex s).map bytesToChars
+
+def showCErr : CErr → String
+  | .syncEndpointSpecific => "sync-endpoint-specific" | .syncUnsupported => "sync-unsupported"
+  | .hashEndpointSpecific => "hash-endpoint-specific" | .hashUnsupported => "hash-unsupported" | .hashLicense => "hash-license"
+  | .probe => "probe" | .scan => "scan" | .stage => "stage"
+  | .symlinkEndpointSpecific => "symlink-endpoint-specific" | .symlinkUnsupported => "symlink-unsupported"
+  | .watch => "watch"
+  | .syntaxEndpointSpecific => "syntax-endpoint-specific" | .syntaxUnsupported => "syntax-unsupported"
+  | .defaultIgnoresEndpointSpecific => "default-ignores-endpoint-specific" | .ignoresEndpointSpecific => "ignores-endpoint-specific"
+  | .vcsEndpointSpecific => "vcs-endpoint-specific" | .vcsUnsupported => "vcs-unsupported"
+  | .permEndpointSpecific => "perm-endpoint-specific" | .permUnsupported => "perm-unsupported"
+  | .fileModeBits => "file-mode-bits" | .fileModeExec => "file-mode-exec" | .directoryModeBits => "directory-mode-bits"
+  | .owner => "owner" | .group => "group"
+  | .compressUnsupported => "compress-unsupported" | .compressLicense => "compress-license"
+
+def showStage : Stage → String
+  | .session => "session" | .alpha => "alpha" | .beta => "beta" | .mergedAlpha => "merged-alpha" | .mergedBeta => "merged-beta"
+
+def showV : Except CErr Unit → String
+  | .ok () => "ok"
+  | .error e => showCErr e
+
+def parseStrList (s : String) : Option (List Str) := (listField s).mapM unhexStr
+
+def showStrList (l : List Str) : String := if l.isEmpty then "-" else ",".intercalate (l.map hexStr)
+
+def parseConfig (s : String) : Option Configuration :=
+  match s.splitOn "/" with
+  | [sm, ha, mec, msfs, pm, scm, stm, slm, wm, wpi, is, di, ig, vcs, perm, fm, dm, owner, group, ca] => do
+    pure { synchronizationMode := ← sm.toNat?, hashingAlgorithm := ← ha.toNat?, maximumEntryCount := ← mec.toNat?,
+           maximumStagingFileSize := ← msfs.toNat?, probeMode := ← pm.toNat?, scanMode := ← scm.toNat?,
+           stageMode := ← stm.toNat?, symbolicLinkMode := ← slm.toNat?, watchMode := ← wm.toNat?,
+           watchPollingInterval := ← wpi.toNat?, ignoreSyntax := ← is.toNat?, defaultIgnores := ← parseStrList di,
+           ignores := ← parseStrList ig, ignoreVCSMode := ← vcs.toNat?, permissionsMode := ← perm.toNat?,
+           defaultFileMode := ← fm.toNat?, defaultDirectoryMode := ← dm.toNat?, defaultOwner := ← unhexStr owner,
+           defaultGroup := ← unhexStr group, compressionAlgorithm := ← ca.toNat? }
+  | _ => none
+
+def showConfig (c : Configuration) : String :=
+  "/".intercalate [toString c.synchronizationMode, toString c.hashingAlgorithm, toString c.maximumEntryCount,
+    toString c.maximumStagingFileSize, toString c.probeMode, toString c.scanMode, toString c.stageMode,
+    toString c.symbolicLinkMode, toString c.watchMode, toString c.watchPollingInterval, toString c.ignoreSyntax,
+    showStrList c.defaultIgnores, showStrList c.ignores, toString c.ignoreVCSMode, toString c.permissionsMode,
+    toString c.defaultFileMode, toString c.defaultDirectoryMode, hexStr c.defaultOwner, hexStr c.defaultGroup,
+    toString c.compressionAlgorithm]
+
+/-- The build under test: no SSPL-licensed code (`xxh128_nosspl.go`, `zstandard_nosspl.go`). -/
+def build : Build := { xxh128 := .unsupported, zstandard := .unsupported }
+
+def table : String → Option ModeTable
+  | "sync" => some synchronizationModes | "hash" => some hashingAlgorithms | "probe" => some probeModes
+  | "scan" => some scanModes | "stage" => some stageModes | "symlink" => some symbolicLinkModes
+  | "watch" => some watchModes | "syntax" => some ignoreSyntaxes | "vcs" => some ignoreVCSModes
+  | "perm" => some permissionsModes | "compress" => some compressionAlgorithms | _ => none
+
+def showOptNat : Option Nat → String
+  | some n => toString n
+  | none => "err"
+
+def effective (m : Configuration) : String :=
+  s!"{endpointPermissionsMode m},{endpointFileMode m},{endpointDirectoryMode m}"
+
+def handle (line : String) : String :=
+  match fields line with
+  | [kind, c, ca, cb] =>
+    if kind != "cfg" && kind != "cfgl" then "bad-line" else
+    match parseConfig c, parseConfig ca, parseConfig cb with
+    | some c, some ca, some cb =>
+      let ma := merge c ca
+      let mb := merge c cb
+      let accepted := sessionAccepts build c ca cb
+      let sess := match accepted with
+        | .ok () => "ok"
+        | .error (st, e) => s!"{showStage st}:{showCErr e}"
+      let base :=
+        s!"c={showV (ensureValid build false c)} a={showV (ensureValid build true ca)} b={showV (ensureValid build true cb)} " ++
+        s!"ma={showV (endpointAccepts build ma)} mb={showV (endpointAccepts build mb)} sess={sess} spec={sess} | " ++
+        s!"{showConfig ma} | {showConfig mb}"
+      if kind == "cfgl" then
+        base ++ " | " ++ (match accepted with
+          | .ok () => s!"{effective ma} {effective mb}"
+          | .error _ => "-")
+      else base
+    | _, _, _ => "bad-line"
+  | ["text", t, v] =>
+    match table t, v.toNat? with
+    | some t', some v =>
+      let txt := if t == "vcs" then (marshalJSON t' v).getD "!" else marshalText t' v
+      let back := if txt == "!" then "err" else showOptNat (unmarshalText t' txt)
+      s!"{encHex txt.toUTF8.toList} {back} {if supportedIn t' v then 1 else 0}"
+    | _, _ => "bad-line"
+  | ["parse", t, h] =>
+    match table t, decHex h with
+    | some t', some bytes =>
+      match String.fromUTF8? (ByteArray.mk bytes.toArray) with
+      | some s => showOptNat (unmarshalText t' s)
+      | none => "err"
+    | _, _ => "bad-line"
+  | _ => "bad-line"
 
 end Mutagen.Driver.C37
